@@ -946,3 +946,136 @@ package sarama
 //@   ensures[no_retry_after_fatal] r != nil && !isRetryable(r) ==> ca.last == r
 //@   ensures[budget] r != nil && isRetryable(r) ==> ca.calls >= ca.conf.Admin.Retry.Max
 //@   loop 0: invariant ca.calls == attempt && attempt >= 0 && (attempt == 0 ==> err == nil && ca.last == nil) && (attempt > 0 ==> err == ca.last && err != nil && isRetryable(err))
+
+// ---------------------------------------------------------------------------------------------
+// async_producer.go (C01 one outcome per message, C05 bookkeeping, C18 interceptors)
+//
+// Ghost accounting. msg.disp counts how often a stage disposed of a message token: it is incremented
+// exactly (a) where inFlight.Done() is executed on behalf of the message (terminal outcome) and (b) where
+// the message is handed to the next stage over a channel (retries, a topic/partition/broker input).
+// msg.errEvents / msg.succEvents count the events sent on Errors() / Successes() naming the message.
+// wgcount(p.inFlight) mirrors the WaitGroup.
+
+//@ ghost field ProducerMessage.disp int
+// distinctness of the messages of a batch is stated through an index function (solver-friendly injectivity)
+//@ ghost func idxOf([]*ProducerMessage, *ProducerMessage) int
+//@ ghost field ProducerMessage.errEvents int
+//@ ghost field ProducerMessage.succEvents int
+
+//@ channel asyncProducer.errors e
+//@   send effect e.Msg.errEvents == old(e.Msg.errEvents) + 1
+//@   send modifies e.Msg.errEvents
+//@ channel asyncProducer.successes m
+//@   send effect m.succEvents == old(m.succEvents) + 1
+//@   send modifies m.succEvents
+//@ channel asyncProducer.retries m
+//@   send requires[within_budget] m.retries <= owner.conf.Producer.Retry.Max
+//@   send effect m.disp == old(m.disp) + 1
+//@   send modifies m.disp
+
+//@ guarded transactionManager.mutex: producerEpoch, contents(sequenceNumbers)
+
+//@ func (t *transactionManager) bumpEpoch() props C05
+//@   requires acq(t.producerEpoch) < 32767 ==> true
+//@   ensures[epoch] t.producerEpoch == wrap16(acq(t.producerEpoch) + 1)
+//@   modifies t.producerEpoch, map:t.sequenceNumbers
+
+//@ func (t *transactionManager) getAndIncrementSequenceNumber(topic, partition) props C05
+//@   returns seq, epoch
+//@   requires t.sequenceNumbers != nil
+//@   ensures[epoch] epoch == acq(t.producerEpoch) && t.producerEpoch == acq(t.producerEpoch)
+//@   modifies t.producerEpoch, map:t.sequenceNumbers
+
+//@ func (m *ProducerMessage) clear() props C01 C05
+//@   ensures[cleared] m.flags == 0 && m.retries == 0 && m.sequenceNumber == 0 && m.producerEpoch == 0 && !m.hasSequence
+//@   modifies m.flags, m.retries, m.sequenceNumber, m.producerEpoch, m.hasSequence
+
+//@ func (p *asyncProducer) returnError(msg, err) props C01 C05
+//@   callsite Done: modifies msg.disp
+//@   callsite Done: effect msg.disp == old(msg.disp) + 1
+//@   ensures[disposed] msg.disp == old(msg.disp) + 1
+//@   ensures[inflight] wgcount(p.inFlight) == old(wgcount(p.inFlight)) - 1
+//@   ensures[event] msg.errEvents == old(msg.errEvents) + ite(p.conf.Producer.Return.Errors, 1, 0) && msg.succEvents == old(msg.succEvents)
+//@   ensures[cleared] msg.flags == 0 && msg.retries == 0 && !msg.hasSequence
+//@   modifies msg.disp, msg.errEvents, msg.flags, msg.retries, msg.sequenceNumber, msg.producerEpoch, msg.hasSequence, transactionManager.producerEpoch, map:p.txnmgr.sequenceNumbers, $wg
+
+//@ func (p *asyncProducer) returnErrors(batch, err) props C01
+//@   modifies ProducerMessage.disp, ProducerMessage.errEvents, ProducerMessage.succEvents, ProducerMessage.flags, ProducerMessage.retries, ProducerMessage.sequenceNumber, ProducerMessage.producerEpoch, ProducerMessage.hasSequence, transactionManager.producerEpoch, map:p.txnmgr.sequenceNumbers, $wg
+//@   requires forall i :: 0 <= i && i < len(batch) ==> idxOf(batch, batch[i]) == i
+//@   ensures[disposed] forall i :: 0 <= i && i < len(batch) ==> batch[i].disp == old(batch[i].disp) + 1
+//@   ensures[inflight] wgcount(p.inFlight) == old(wgcount(p.inFlight)) - len(batch)
+//@   loop 0: invariant wgcount(p.inFlight) == old(wgcount(p.inFlight)) - $i
+//@   loop 0: invariant forall j :: 0 <= j && j < $i ==> batch[j].disp == old(batch[j].disp) + 1
+//@   loop 0: invariant forall j :: $i <= j && j < len(batch) ==> batch[j].disp == old(batch[j].disp)
+
+//@ func (p *asyncProducer) returnSuccesses(batch) props C01
+//@   modifies ProducerMessage.disp, ProducerMessage.errEvents, ProducerMessage.succEvents, ProducerMessage.flags, ProducerMessage.retries, ProducerMessage.sequenceNumber, ProducerMessage.producerEpoch, ProducerMessage.hasSequence, transactionManager.producerEpoch, map:p.txnmgr.sequenceNumbers, $wg
+//@   requires forall i :: 0 <= i && i < len(batch) ==> idxOf(batch, batch[i]) == i
+//@   callsite Done: modifies msg.disp
+//@   callsite Done: effect msg.disp == old(msg.disp) + 1
+//@   ensures[disposed] forall i :: 0 <= i && i < len(batch) ==> batch[i].disp == old(batch[i].disp) + 1
+//@   ensures[inflight] wgcount(p.inFlight) == old(wgcount(p.inFlight)) - len(batch)
+//@   ensures[events] forall i :: 0 <= i && i < len(batch) ==> batch[i].succEvents == old(batch[i].succEvents) + ite(p.conf.Producer.Return.Successes, 1, 0)
+//@   ensures[no_error_events] forall i :: 0 <= i && i < len(batch) ==> batch[i].errEvents == old(batch[i].errEvents)
+//@   loop 0: invariant wgcount(p.inFlight) == old(wgcount(p.inFlight)) - $i
+//@   loop 0: invariant forall j :: 0 <= j && j < $i ==> batch[j].disp == old(batch[j].disp) + 1
+//@   loop 0: invariant forall j :: 0 <= j && j < $i ==> batch[j].succEvents == old(batch[j].succEvents) + ite(p.conf.Producer.Return.Successes, 1, 0)
+//@   loop 0: invariant forall j :: 0 <= j && j < $i ==> batch[j].errEvents == old(batch[j].errEvents)
+//@   loop 0: invariant forall j :: $i <= j && j < len(batch) ==> batch[j].disp == old(batch[j].disp)
+//@   loop 0: invariant forall j :: $i <= j && j < len(batch) ==> batch[j].succEvents == old(batch[j].succEvents)
+//@   loop 0: invariant forall j :: $i <= j && j < len(batch) ==> batch[j].errEvents == old(batch[j].errEvents)
+
+//@ func (p *asyncProducer) retryMessage(msg, err) props C01
+//@   requires 0 <= msg.retries
+//@   ensures[disposed] msg.disp == old(msg.disp) + 1
+//@   ensures[exhausted] old(msg.retries) >= p.conf.Producer.Retry.Max ==> wgcount(p.inFlight) == old(wgcount(p.inFlight)) - 1 && msg.errEvents == old(msg.errEvents) + ite(p.conf.Producer.Return.Errors, 1, 0)
+//@   ensures[requeued] old(msg.retries) < p.conf.Producer.Retry.Max ==> msg.retries == old(msg.retries) + 1 && wgcount(p.inFlight) == old(wgcount(p.inFlight)) && msg.errEvents == old(msg.errEvents)
+//@   modifies msg.disp, msg.errEvents, msg.flags, msg.retries, msg.sequenceNumber, msg.producerEpoch, msg.hasSequence, transactionManager.producerEpoch, map:p.txnmgr.sequenceNumbers, $wg
+
+//@ func (p *asyncProducer) retryMessages(batch, err) props C01
+//@   modifies ProducerMessage.disp, ProducerMessage.errEvents, ProducerMessage.succEvents, ProducerMessage.flags, ProducerMessage.retries, ProducerMessage.sequenceNumber, ProducerMessage.producerEpoch, ProducerMessage.hasSequence, transactionManager.producerEpoch, map:p.txnmgr.sequenceNumbers, $wg
+//@   requires forall i :: 0 <= i && i < len(batch) ==> idxOf(batch, batch[i]) == i
+//@   requires forall i :: 0 <= i && i < len(batch) ==> batch[i].retries >= 0
+//@   ensures[disposed] forall i :: 0 <= i && i < len(batch) ==> batch[i].disp == old(batch[i].disp) + 1
+//@   loop 0: invariant forall j :: 0 <= j && j < $i ==> batch[j].disp == old(batch[j].disp) + 1
+//@   loop 0: invariant forall j :: $i <= j && j < len(batch) ==> batch[j].disp == old(batch[j].disp) && batch[j].retries >= 0
+
+// Ownership assumption A-own (trusted): the metadata client and the broker-producer registry never receive,
+// store or write a produceSet, partitionSet or ProducerMessage; calls into them leave those objects alone.
+//@ func (c Client) Leader(topic, partitionID) trusted
+//@   returns b, err
+//@   modifies nothing
+
+//@ func (p *asyncProducer) getBrokerProducer(broker) trusted
+//@   returns bp
+//@   ensures bp != nil
+//@   modifies nothing
+
+//@ func newProduceSet(parent) props C01
+//@   returns ps
+//@   ensures[fresh] fresh(ps) && ps.msgs != nil && fresh(ps.msgs) && maplen(ps.msgs) == 0 && ps.bufferBytes == 0 && ps.bufferCount == 0 && ps.parent == parent
+//@   modifies map:parent.txnmgr.sequenceNumbers
+
+//@ func (t *transactionManager) getProducerID() props C05
+//@   returns id, epoch
+//@   ensures[epoch] epoch == acq(t.producerEpoch) && t.producerEpoch == acq(t.producerEpoch)
+//@   modifies t.producerEpoch, map:t.sequenceNumbers
+
+// retryBatch hands the whole partition set to the new leader's broker producer (or fails it): every message
+// of the set must be disposed of exactly once, and a resent batch is the identical set (C05).
+//@ func (p *asyncProducer) retryBatch(topic, partition, pSet, kerr) props C01 C05
+//@   per_return
+//@   requires forall i :: 0 <= i && i < len(pSet.msgs) ==> idxOf(pSet.msgs, pSet.msgs[i]) == i
+//@   requires forall i :: 0 <= i && i < len(pSet.msgs) ==> pSet.msgs[i].retries >= 0 && pSet.msgs[i].retries < 4611686018427387904
+//@   callsite send.output: requires[sends_the_set] $value.msgs != nil && $value.msgs[topic] != nil && $value.msgs[topic][partition] == pSet
+//@   callsite send.output: modifies ProducerMessage.disp
+//@   callsite send.output: effect forall i :: 0 <= i && i < len(pSet.msgs) ==> pSet.msgs[i].disp == old(pSet.msgs[i].disp) + 1
+//@   callsite send.output: effect forall m *ProducerMessage :: (forall i :: 0 <= i && i < len(pSet.msgs) ==> pSet.msgs[i] != m) ==> m.disp == old(m.disp)
+//@   ensures[conserve] forall i :: 0 <= i && i < len(pSet.msgs) ==> pSet.msgs[i].disp == old(pSet.msgs[i].disp) + 1
+//@   ensures[same_records] pSet.recordsToSend.RecordBatch == old(pSet.recordsToSend.RecordBatch) && pSet.recordsToSend.MsgSet == old(pSet.recordsToSend.MsgSet) && len(pSet.msgs) == old(len(pSet.msgs))
+//@   loop 0: invariant len(pSet.msgs) == old(len(pSet.msgs)) && arr(pSet.msgs) == old(arr(pSet.msgs)) && off(pSet.msgs) == old(off(pSet.msgs))
+//@   loop 0: invariant forall j :: 0 <= j && j < len(pSet.msgs) ==> pSet.msgs[j].disp == old(pSet.msgs[j].disp)
+//@   loop 0: invariant forall j :: 0 <= j && j < len(pSet.msgs) ==> pSet.msgs[j].retries >= 0
+//@   loop 1: invariant len(pSet.msgs) == old(len(pSet.msgs)) && arr(pSet.msgs) == old(arr(pSet.msgs)) && off(pSet.msgs) == old(off(pSet.msgs))
+//@   loop 1: invariant forall j :: 0 <= j && j < $i ==> pSet.msgs[j].disp == old(pSet.msgs[j].disp) + 1
+//@   loop 1: invariant forall j :: $i <= j && j < len(pSet.msgs) ==> pSet.msgs[j].disp == old(pSet.msgs[j].disp)
